@@ -5,7 +5,7 @@
    This file only restates the property theorems; proofs are in frame/*Proofs.v. *)
 From Coq Require Import List NArith ZArith Bool.
 From JV Require Import Bytes FrameBase FrameBaseProofs FrameSpec Split SplitProofs Hdr HdrProofs
-  JsonScan RawJson RawJsonProofs Direct DirectProofs.
+  JsonScan JsonScanProofs RawJson RawJsonProofs Direct DirectProofs.
 Import ListNotations.
 Local Open Scope N_scope.
 
@@ -37,15 +37,22 @@ Theorem c11_hdr_lsp_usable : usable_mime lsp_mime = true.
 Proof. exact (eq_refl true). Qed.
 Print Assumptions c11_hdr_lsp_usable.
 
-(* RawJSON, PARTIAL: stated for records on which the JSON scanner finds the end whatever
-   follows (hypothesis self_delimiting inside legal); that every object/array/string has this
-   property is not proved in Coq (see RawJsonProofs.v) *)
-Theorem c11_rawjson_partial : forall rs,
-  Forall RawJsonProofs.legal rs ->
+(* RawJSON: every sequence of records each of which is empty (sent as null LF, received empty) or
+   a JSON object, array or string without outer white space (json_record: a boolean checker -
+   opening brace, bracket or quote, and Go's scanner grammar accepts exactly the whole text).
+   Bare numbers / literals are outside the claim (not self-delimiting: 1 then 2 is 12). *)
+Theorem c11_rawjson : forall rs,
+  Forall (fun r => r = [] \/ json_record r = true) rs ->
   send_all RawJson.send rs = Some (concat (map RawJsonProofs.enc rs)) /\
   RawJson.recv_all (concat (map RawJsonProofs.enc rs)) = map IRec rs ++ [IErr EEOF].
-Proof. exact rawjson_round_trip_partial. Qed.
-Print Assumptions c11_rawjson_partial.
+Proof. exact rawjson_round_trip. Qed.
+Print Assumptions c11_rawjson.
+
+(* what makes it work: the scanner finds exactly the end of a json_record whatever follows *)
+Theorem c11_rawjson_self_delimiting : forall r rest,
+  json_record r = true -> scan (r ++ rest) = Done rest.
+Proof. exact scan_self_delimiting. Qed.
+Print Assumptions c11_rawjson_self_delimiting.
 
 (* Direct: FIFO, then io.EOF after Close; Send after Close fails *)
 Theorem c11_direct : forall rs,
@@ -56,7 +63,7 @@ Theorem c11_direct : forall rs,
 Proof. exact direct_fifo. Qed.
 Print Assumptions c11_direct.
 
-(* the fuel of the models never runs out (Split; the header framings: c12_hdr_no_crash) *)
+(* the fuel of the models never runs out (Split here; header framings and RawJSON: c12_*_no_crash_all) *)
 Theorem c11_fuel_split : forall b s, clean (Split.recv_all cfg_fixed b s).
 Proof. exact (split_recv_all_clean cfg_fixed). Qed.
 Print Assumptions c11_fuel_split.
